@@ -16,7 +16,7 @@ RULE = ('case = (object kind, payload size/pattern, headers, line ending, input 
         'armored text decoded by the reference or per corrupted text loaded; non-trivial = payload longer than one armor line, or headers '
         'present, or a corruption that the reference confirms changes payload or CRC; distinct = distinct case descriptors')
 ASSUMPTIONS = ['binascii radix-64 primitive', 'vf.ref.armor CRC-24 follows RFC 4880 6.1 (validated on the repository fixtures by oracle_selftest)']
-MIN_COUNTERS = {'armor_checked': 250, 'corruptions_judged': 1000, 'kind_confusion': 6, 'load_compared': 300}
+MIN_COUNTERS = {'armor_checked': 250, 'corruptions_judged': 1000, 'kind_confusion': 6, 'load_compared': 300, 'armor_quoted_inside_binary': 60}
 BUDGET = {'quick': (600, 1500), 'thorough': (1500, 3600)}
 
 B64 = 'ABCDEFGHIJKLMNOPQRSTUVWXYZabcdefghijklmnopqrstuvwxyz0123456789+/'
@@ -40,6 +40,7 @@ def cases(tier, seed):
                 cs.append({'t': 'object', 'kind': kind, 'key': key, 'hs': hs})
     cs.append({'t': 'confusion'})
     cs.append({'t': 'header_isolation'})
+    cs.append({'t': 'armor_inside_binary'})
     for sname in (['ed25519_0', 'rsa1024_0'] if tier == 'quick' else ['ed25519_0', 'rsa1024_0', 'ecdsa_p256_0', 'dsa1024_0']):
         cs.append({'t': 'sigkinds', 'signer': sname})
     # corruption sweeps: three blocks, split in position ranges
@@ -181,6 +182,41 @@ def compare_loads(ctx, kind, obj, text, where, headers=None):
             ctx.fail('cleartext-differs-after-load', {'where': where, 'variant': vn})
 
 
+def _armor_inside_binary(ctx, pgpy):
+    """a BINARY export is never read as armor, whatever its content spells: literal messages (not compressed, not encrypted) whose text quotes whole
+    armor blocks - a key, a signature, another message - load from bytes / bytearray as what they are, equal to the load of their own armored form"""
+    from pgpy.constants import CompressionAlgorithm
+    k = pool.pgpy_key('ed25519_0', uid='armor inside')
+    inner_msg = pgpy.PGPMessage.new('the inner message', compression=CompressionAlgorithm.Uncompressed)
+    inner_msg.ascii_headers['Comment'] = 'inner header'
+    blocks = {'key': str(k.pubkey), 'signature': str(k.sign('x')), 'message': str(inner_msg), 'private-key': str(k)}
+    for bname, block in blocks.items():
+        for shape in ('block-only', 'quoted-in-mail', 'two-in-a-row', 'crlf'):
+            text = {'block-only': block, 'quoted-in-mail': 'Dear all,\nplease find it below.\n\n' + block + '\nregards\n',
+                    'two-in-a-row': block + block, 'crlf': ('see:\n' + block).replace('\n', '\r\n')}[shape]
+            for fmt in ('b', 'u'):
+                outer = pgpy.PGPMessage.new(text.encode('utf-8') if fmt == 'b' else text, format=fmt, compression=CompressionAlgorithm.Uncompressed)
+                binary = bytes(outer)
+                want = bytes(outer._message._contents) if hasattr(outer._message, '_contents') else None
+                for inform, data in (('bytes', binary), ('bytearray', bytearray(binary))):
+                    ctx.count('armor_quoted_inside_binary')
+                    ctx.count('evaluations')
+                    where = {'inner': bname, 'shape': shape, 'format': fmt, 'input': inform}
+                    try:
+                        m2 = pgpy.PGPMessage.from_blob(data)
+                    except Exception as e:
+                        ctx.fail('binary-export-not-loadable-because-its-content-spells-armor', dict(where, err=repr(e)[:140]))
+                        continue
+                    if bytes(m2) != binary:
+                        ctx.fail('binary-export-read-as-the-armor-it-quotes', dict(where, lens=[len(binary), len(bytes(m2))], headers=dict(m2.ascii_headers)))
+                    try:
+                        m3 = pgpy.PGPMessage.from_blob(str(outer))
+                        if bytes(m3) != bytes(m2):
+                            ctx.fail('armored-and-binary-load-differ', where)
+                    except Exception as e:
+                        ctx.fail('own-armor-not-loadable', dict(where, err=repr(e)[:140]))
+
+
 def _header_isolation(ctx, pgpy):
     """an object's armor carries the header lines supplied to *that object*: objects derived from one another (public half, copy, encrypted /
     decrypted / re-loaded form, signature added) are edited in place after the derivation, in either order, and each must keep its own set"""
@@ -287,6 +323,8 @@ def run_case(ctx, d):
                 ctx.fail('armor-label-or-payload', {'where': where, 'label': dd['kind'], 'same_payload': dd['data'] == bytes(sg)})
             compare_loads(ctx, 'sig', sg, text, where)
         ctx.nontrivial(d)
+    elif t == 'armor_inside_binary':
+        _armor_inside_binary(ctx, pgpy)
     elif t == 'header_isolation':
         _header_isolation(ctx, pgpy)
     elif t == 'confusion':
